@@ -172,7 +172,7 @@ fn main() {
         }
         #[cfg(feature = "cb-std")]
         "io" => {
-            cbverif::watch::start(60);
+            cbverif::watch::start(600);
             use cbverif::io_engine::{self as io, Api};
             let thorough = arg(&args, "--tier").as_deref() == Some("thorough");
             let seed: u64 = arg(&args, "--seed").and_then(|s| s.parse().ok()).unwrap_or(20260926);
@@ -217,7 +217,7 @@ fn main() {
         }
         #[cfg(feature = "cb-std")]
         "cmp" => {
-            cbverif::watch::start(60);
+            cbverif::watch::start(600);
             use cbverif::cmp_engine as ce;
             let thorough = arg(&args, "--tier").as_deref() == Some("thorough");
             let seed: u64 = arg(&args, "--seed").and_then(|s| s.parse().ok()).unwrap_or(20260926);
@@ -264,7 +264,7 @@ fn main() {
         }
         #[cfg(feature = "cb-std")]
         "zst" => {
-            cbverif::watch::start(60);
+            cbverif::watch::start(600);
             use cbverif::zst_engine as ze;
             let thorough = arg(&args, "--tier").as_deref() == Some("thorough");
             let seed: u64 = arg(&args, "--seed").and_then(|s| s.parse().ok()).unwrap_or(20260926);
@@ -561,7 +561,7 @@ fn main() {
             }
         }
         "alloc" => {
-            cbverif::watch::start(60);
+            cbverif::watch::start(600);
             use cbverif::alloc_engine as ae;
             let thorough = arg(&args, "--tier").as_deref() == Some("thorough");
             let seed: u64 = arg(&args, "--seed").and_then(|s| s.parse().ok()).unwrap_or(20260926);
